@@ -136,3 +136,139 @@ def gen_collection():
 
 
 MODULES["Collection"] = gen_collection
+
+
+# ------------------------------------------------------------------ Parity (C16)
+HDR_SYMS = {"CDELT1": "cdelt1", "CDELT2": "cdelt2", "PC1_1": "pc11", "PC1_2": "pc12", "PC2_1": "pc21", "PC2_2": "pc22",
+            "CRPIX1": "crpix1", "CRPIX2": "crpix2"}
+PC_DEFAULTS = {"PC1_1": 1.0, "PC1_2": 0.0, "PC2_1": 0.0, "PC2_2": 1.0}
+
+
+def _rat_expr(e, hdr, names):
+    """expression over header reads -> Lean Rat term.  hdr: current symbolic header (key -> Lean term)."""
+    if isinstance(e, ast.Constant) and isinstance(e.value, (int, float)) and not isinstance(e.value, bool):
+        v = e.value
+        if float(v) != int(v):
+            raise ExtractError(f"non-integral constant {v}")
+        return f"({int(v)} : Rat)"
+    if isinstance(e, ast.UnaryOp) and isinstance(e.op, ast.USub):
+        return f"(-{_rat_expr(e.operand, hdr, names)})"
+    if isinstance(e, ast.Name):
+        if e.id in names:
+            return names[e.id]
+        raise ExtractError(f"unknown name {e.id}")
+    if isinstance(e, ast.BinOp):
+        a, b = _rat_expr(e.left, hdr, names), _rat_expr(e.right, hdr, names)
+        op = {ast.Add: "+", ast.Sub: "-", ast.Mult: "*"}.get(type(e.op))
+        if op is None:
+            raise ExtractError("unsupported operator in header arithmetic")
+        return f"({a} {op} {b})"
+    if isinstance(e, ast.Subscript) and isinstance(e.value, ast.Name) and e.value.id == "h" and isinstance(e.slice, ast.Constant):
+        k = e.slice.value
+        if k not in hdr:
+            raise ExtractError(f"read of header key {k} which is absent")
+        return hdr[k]
+    if (isinstance(e, ast.Call) and isinstance(e.func, ast.Attribute) and e.func.attr in ("setdefault", "get")
+            and isinstance(e.func.value, ast.Name) and e.func.value.id == "h"):
+        k, dflt = e.args[0].value, e.args[1].value
+        if PC_DEFAULTS.get(k) != dflt:
+            raise ExtractError(f"default of {k} is {dflt}, the FITS standard says {PC_DEFAULTS.get(k)}")
+        if k not in hdr:
+            raise ExtractError(f"read of header key {k} which is absent")
+        return hdr[k]
+    raise ExtractError("unsupported header expression " + ast.unparse(e))
+
+
+def _run_header_fn(fn, names):
+    hdr = {k: v for k, v in HDR_SYMS.items()}
+    deleted = []
+    ret = None
+    for s in fn.body:
+        if isinstance(s, (ast.ImportFrom, ast.Import)):
+            continue
+        if isinstance(s, ast.Expr) and isinstance(s.value, ast.Constant):
+            continue
+        if isinstance(s, ast.Assign) and len(s.targets) == 1:
+            t = s.targets[0]
+            if isinstance(t, ast.Name) and t.id == "h" and ast.unparse(s.value) == "wcs.to_header()":
+                continue
+            if isinstance(t, ast.Subscript) and isinstance(t.value, ast.Name) and t.value.id == "h":
+                hdr[t.slice.value] = _rat_expr(s.value, hdr, names)
+                continue
+            if isinstance(t, ast.Name):
+                names[t.id] = _rat_expr(s.value, hdr, names)
+                continue
+        if isinstance(s, ast.AugAssign) and isinstance(s.target, ast.Subscript) and ast.unparse(s.target.value) == "h":
+            k = s.target.slice.value
+            new = ast.BinOp(left=ast.Subscript(value=ast.Name("h"), slice=ast.Constant(k)), op=s.op, right=s.value)
+            hdr[k] = _rat_expr(new, hdr, names)
+            continue
+        if isinstance(s, ast.For) and ast.unparse(s.target) == "hn" and len(s.body) == 1 and ast.unparse(s.body[0]) == "del h[hn]":
+            keys = ast.literal_eval(s.iter.func.value) .split() if isinstance(s.iter, ast.Call) else None
+            if keys is None:
+                raise ExtractError("deletion loop shape")
+            for k in keys:
+                hdr.pop(k, None)
+                deleted.append(k)
+            continue
+        if isinstance(s, ast.Return):
+            ret = ast.unparse(s.value)
+            continue
+        if isinstance(s, ast.If):
+            return hdr, deleted, ("if", s), names
+        raise ExtractError("unsupported statement in header function: " + ast.unparse(s)[:60])
+    return hdr, deleted, ret, names
+
+
+def gen_parity():
+    tree = parse("toasty/image.py")
+    out = HEADER.format(src="toasty/image.py") + "namespace Gen\nnamespace Parity\n\n"
+    args = "(cdelt1 cdelt2 pc11 pc12 pc21 pc22 : Rat)"
+    # parity sign
+    fn = find_def(tree, "_wcs_to_parity_sign")
+    hdr, _del, tail, names = _run_header_fn(fn, {})
+    if "det" not in names or not (isinstance(tail, tuple) and tail[0] == "if"):
+        raise ExtractError("_wcs_to_parity_sign shape changed")
+    ifn = tail[1]
+    test = ast.unparse(ifn.test)
+    m = re.fullmatch(r"det (<|<=|>|>=) 0", test)
+    if not m or not isinstance(ifn.body[0], ast.Return):
+        raise ExtractError("parity test changed: " + test)
+    after = fn.body[fn.body.index(ifn) + 1]
+    r_then, r_else = ast.literal_eval(ast.unparse(ifn.body[0].value)), ast.literal_eval(ast.unparse(after.value))
+    sym = {"<": "<", "<=": "≤", ">": ">", ">=": "≥"}[m.group(1)]
+    out += f"/-- determinant as computed by `_wcs_to_parity_sign` -/\ndef det {args} : Rat :=\n  {names['det']}\n\n"
+    out += f"/-- `_wcs_to_parity_sign` -/\ndef sign {args} : Int :=\n  if det cdelt1 cdelt2 pc11 pc12 pc21 pc22 {sym} 0 then {r_then} else {r_else}\n\n"
+    # flip
+    fn = find_def(tree, "_flip_wcs_parity")
+    hdr, deleted, ret, _n = _run_header_fn(fn, {"image_height": "height"})
+    if ret != "WCS(h)":
+        raise ExtractError("_flip_wcs_parity no longer returns WCS(h)")
+    fargs = "(cdelt1 cdelt2 pc11 pc12 pc21 pc22 crpix1 crpix2 height : Rat)"
+    for k in ("CD1_1", "CD1_2", "CD2_1", "CD2_2", "CRPIX1", "CRPIX2"):
+        if k not in hdr:
+            raise ExtractError(f"flipped header lacks {k}")
+        out += f"def flip_{k.lower()} {fargs} : Rat :=\n  {hdr[k]}\n\n"
+    leftover = sorted(k for k in hdr if k.startswith(("PC", "CDELT")))
+    out += f"/-- PC/CDELT keywords still present next to the CD matrix in the flipped header (must be none) -/\ndef flip_leftover : List String := {json_list(leftover)}\n\n"
+    # row reversal in Image.flip_parity, and the height handed to the WCS flip
+    for cls in ("Image", "ImageDescription"):
+        m = find_def(tree, f"{cls}.flip_parity")
+        src = ast.unparse(m)
+        hcall = "_flip_wcs_parity(self._wcs, self.height)" if cls == "Image" else "_flip_wcs_parity(self.wcs, self.height)"
+        out += f"def {cls.lower()}_flip_uses_height : Bool := {'true' if hcall in src else 'false'}\n"
+    rows = "self._array = self.asarray()[::-1]" in ast.unparse(find_def(tree, "Image.flip_parity"))
+    out += f"/-- `Image.flip_parity` replaces the array by `asarray()[::-1]` (rows reversed) -/\ndef image_flip_reverses_rows : Bool := {'true' if rows else 'false'}\n"
+    for cls in ("Image", "ImageDescription"):
+        m = find_def(tree, f"{cls}.ensure_negative_parity")
+        ok = ast.unparse(m.body[-2]) == "if self.get_parity_sign() == 1:\n    self.flip_parity()"
+        out += f"def {cls.lower()}_ensure_flips_iff_positive : Bool := {'true' if ok else 'false'}\n"
+    out += "\nend Parity\nend Gen\n"
+    return out
+
+
+def json_list(xs):
+    return "[" + ", ".join('"%s"' % x for x in xs) + "]"
+
+
+MODULES["Parity"] = gen_parity
